@@ -55,7 +55,9 @@ def _classify_message(msg):
 
 
 def run_verus(path, rlimit=None, extra=None, threads=None, timeout=1800):
-    cmd = ["verus", path, "--output-json", "--time", "--multiple-errors", "20", "--error-format=json"]
+    # -V spinoff-all: every function is checked in its own solver instance, so a verdict does not depend on which other
+    # functions happen to be in the unit (stability against unrelated edits)
+    cmd = ["verus", path, "--output-json", "--time", "--multiple-errors", "20", "--error-format=json", "-V", "spinoff-all"]
     if rlimit:
         cmd += ["--rlimit", str(rlimit)]
     if threads:
